@@ -38,6 +38,17 @@ def configs(tier, seed):
         for kind in ("sdsm_lapack", "sdsm_manual"):
             out.append(dict(h="cohorts", op=kind + "2d", key=f"cohorts/{kind}/grid=uneven/n=3/extra=r2xp2", kind=kind, grid="uneven", n=3, extra={"r": 2, "p": 2}))
             out.append(dict(h="cohorts", op=kind + "2d3", key=f"cohorts/{kind}/grid=const/n=3/extra=r2xp3", kind=kind, grid="const", n=3, extra={"r": 2, "p": 3}))
+    # the model object was computed before with another driver (a scenario loop): every statement holds for the latest compute
+    for kind in KINDS:
+        for extra in ({}, {"r": 2}):
+            for grid in ("unit", "uneven"):
+                ek = "x".join(f"{l}{k}" for l, k in extra.items()) or "-"
+                out.append(dict(h="cohorts", op=kind + "again", key=f"cohorts/{kind}/grid={grid}/n=3/extra={ek}/computed_before", kind=kind, grid=grid, n=3, extra=extra, again=True))
+    # result arrays handed over by the user in another memory layout (transposed views), two label dimensions
+    for kind in KINDS:
+        for extra in ({"r": 2, "p": 2}, {"r": 2, "p": 3}) if tier == "quick" else ({"r": 2, "p": 2}, {"r": 2, "p": 3}, {"r": 3, "p": 2, "q": 2}):
+            ek = "x".join(f"{l}{k}" for l, k in extra.items())
+            out.append(dict(h="cohorts", op=kind + "layout", key=f"cohorts/{kind}/grid=const/n=3/extra={ek}/result_arrays=transposed_views", kind=kind, grid="const", n=3, extra=extra, prealloc=True))
     # the shipped lifetime classes with parameters that vary over time (per cohort) and over labels
     for kind in KINDS:
         for lt in ("FixedLifetime", "NormalLifetime"):
@@ -90,7 +101,20 @@ def run(cfg, w):
         lifetime = dsm.AnyLifetime(dims=dims, table=tab, inflow_at=cfg.get("inflow_at", "middle"))
     drive = dict(inflow=w.arr("in", shape)) if kind == "idsm" else dict(stock=w.arr("st", shape))
     w.set_scale(*drive.values())
-    st = dsm.build_stock(kind, dims, lifetime=lifetime, **drive)
+    if cfg.get("prealloc"):
+        # every array of the stock arrives from the caller as a transposed view (driver included)
+        dk = "inflow" if kind == "idsm" else "stock"
+        drv = dsm.prealloc(w, shape)
+        drv[...] = drive[dk]
+        arrays = {q: dsm.prealloc(w, shape) for q in ("inflow", "stock", "outflow") if q != dk}
+        st = dsm.build_stock(kind, dims, lifetime=lifetime, keep_layout=True, **{dk: drv}, **arrays)
+    elif cfg.get("again"):
+        first = w.arr("before", shape)
+        st = dsm.build_stock(kind, dims, lifetime=lifetime, **{k: first for k in drive})
+        st.compute()
+        (st.inflow if kind == "idsm" else st.stock).set_values(list(drive.values())[0].copy())
+    else:
+        st = dsm.build_stock(kind, dims, lifetime=lifetime, **drive)
     st.compute()
     chain = kind.startswith("sdsm")
     S, I, O = st.stock.values, st.inflow.values, st.outflow.values
